@@ -66,9 +66,9 @@ var props = map[string]*propSpec{
 	},
 	"C04": {
 		Level: "fault_enumeration",
-		Rule: "per baseline (seeded configuration x workload of 1-5 RPCs in assorted phases x schedule) the fault-free run reports its N carrier frames; then each of 6 termination causes (channel Close, cancel / expiry of the opening context, Stop, GracefulStop+Stop, carrier failure) is injected at frame boundary k (thorough: every k in 1..N; quick: a stratified sample) and the run is driven to final quiescence (all timers fired); plus fully random placements; " +
+		Rule: "per baseline (seeded configuration x workload of 1-5 RPCs in assorted phases x schedule) the fault-free run reports its N carrier frames; then each of 6 termination causes (channel Close, cancel / expiry of the opening context, Stop, GracefulStop+Stop, carrier failure) is injected at frame boundary k (thorough: every k in 1..N; quick: a stratified sample) and the run is driven to final quiescence (all timers fired); plus fully random placements; plus a variant in which a second channel was started from the same pending channel and must outlive the Close of the first; " +
 			"non-trivial = the tunnel ended while at least one RPC was in flight; distinct = distinct schedule digests",
-		Families:       []famPlan{{Family: "teardown", Weight: 3, Enum: true, EnumCauses: 6, EnumQuick: 10}, {Family: "teardown", Weight: 1}},
+		Families:       []famPlan{{Family: "teardown", Weight: 3, Enum: true, EnumCauses: 6, EnumQuick: 10}, {Family: "teardown", Weight: 1}, {Family: "teardown", Weight: 1, Param: map[string]int{"sibling": 1, "cause": 0}}},
 		QuickBudget:    55 * time.Second,
 		ThoroughBudget: 20 * time.Minute,
 	},
@@ -184,8 +184,8 @@ var props = map[string]*propSpec{
 		ThoroughBudget: 15 * time.Minute,
 	},
 	"C13": {
-		Level:          "exploration",
-		Rule:           "every frame of every run is fed to the protocol monitor (appendix A of DESIGN.md); non-trivial = the run carried at least 20 frames; distinct = distinct schedule digests",
+		Level: "exploration",
+		Rule:  "every frame of every run is fed to the protocol monitor (appendix A of DESIGN.md); non-trivial = the run carried at least 20 frames; distinct = distinct schedule digests",
 		Families: []famPlan{{Family: "msgflow", Weight: 3}, {Family: "teardown", Weight: 2}, {Family: "meta", Weight: 2}, {Family: "cancel", Weight: 2}, {Family: "graceful", Weight: 1}, {Family: "flow", Weight: 1, Batch: 10},
 			{Family: "idrace", Weight: 1}, {Family: "matrix", Weight: 1}, {Family: "concurrent", Weight: 1}, {Family: "bystander", Weight: 1}, {Family: "shapes", Weight: 1}, {Family: "rawfuzz", Weight: 1}},
 		QuickBudget:    50 * time.Second,
